@@ -236,6 +236,7 @@ func (d *Data) putChunk(op *putOperation, wg *sync.WaitGroup, putbuffer storage.
 	}
 
 	// put data -- use buffer if available
+	dvid.VerifPoint("labelmap.putChunk", op.mutID)
 	tk := NewBlockTKeyByCoord(op.scale, bcoord)
 	if putbuffer != nil {
 		ready := make(chan error, 1)
